@@ -49,6 +49,22 @@ theorem C01_documented_edges (t : Trans) (h : t.ok = true) :
   | mk m src dst out =>
     cases src <;> cases dst <;> simp [Trans.ok] at h ⊢ <;> exact h
 
+/-- the log is faithful (so the theorem above is about *every* state change, not about a log that could be bypassed):
+in every reachable configuration the state of each module is the target of its last logged change (IDLE if it never
+changed), and only existing modules are logged -/
+theorem C01_log_is_faithful (ops : List Op) (m : ModId) (md : Mod) (h : (run {} ops).st.mods[m]? = some md) :
+    lastState (run {} ops).st.trans m = md.state := by
+  have := (reach_inv ops).1.log m md.sig (by rw [sigs_getElem?, h]; rfl)
+  exact this
+
+/-- ZOMBIE is final and IDLE is only an initial state, in every history: no state change ever leaves ZOMBIE, none ever
+enters IDLE -/
+theorem C01_zombie_final_idle_initial (ops : List Op) (t : Trans) (h : t ∈ (run {} ops).st.trans) :
+    (t.src = .zombie → t.dst = .zombie) ∧ (t.dst = .idle → t.src = .idle) := by
+  have hok := C01_every_transition_documented ops t h
+  cases t with
+  | mk m src dst out => cases src <;> cases dst <;> simp [Trans.ok] at hok ⊢
+
 /-- clause (b), m_mod_start: in any state other than IDLE / STOPPED the call fails and changes nothing -/
 theorem C01_start_refused (s : St) (m : ModId) (md : Mod) (hm : s.mods[m]? = some md)
     (hs : md.state ≠ .idle ∧ md.state ≠ .stopped) : ∃ code : Int, code < 0 ∧ Refuses (apiStart m) s code := by
